@@ -34,6 +34,12 @@ Theorem C10_stored : forall s idx rounds vals s', explored s = true -> step s (E
   t_pts s' = t_pts s /\ t_from s' = t_from s.
 Proof. exact (batch_stored contains in_cube lik blob n_batch). Qed.
 
+(* ... and so over every continuation of a state whose exploration has finished: the counter and the number of stored
+   samples advance in lock step (every call is a stored sample, every new stored sample is a call) *)
+Theorem C10_lockstep : forall evs s s', explored s = true -> Shell2.run contains in_cube lik blob n_batch s evs = Some s' ->
+  explored s' = true /\ n_like s' + length (all_pts s) = n_like s + length (all_pts s') /\ t_pts s' = t_pts s.
+Proof. exact (run_lockstep contains in_cube lik blob n_batch). Qed.
+
 (* one run() call: one batch per loop iteration *)
 Theorem C10_count : forall c first its ft fn s s' ret, run_call c first its ft fn s = Some (s', ret) ->
   n_like s' = n_like s + n_batch * length its.
@@ -73,6 +79,7 @@ Print Assumptions C10_batch.
 Print Assumptions C10_counter.
 Print Assumptions C10_support.
 Print Assumptions C10_stored.
+Print Assumptions C10_lockstep.
 Print Assumptions C10_count.
 Print Assumptions C10_budget.
 Print Assumptions C10_success.
